@@ -36,6 +36,67 @@ def check_write_oracle(ctx, op, inp, trimmed, out):
     return "same"
 
 
+def cli_level(ctx, rng, pool):
+    """one level up: an empty editor config keeps every RPU of an RPU file and drops none, or fails"""
+    import concurrent.futures, json, os
+    from . import clirun
+    need = ctx.build_and_audit  # noqa (built already)
+    ok, out = common.cargo_build_cli()
+    if not ok:
+        raise common.CheckError("dovi_tool does not build:\n" + out[-3000:])
+    pool = [b for b in pool if len(b) >= 25]
+    work = clirun.workdir("c01")
+    jobs = []
+    nfiles = 24 if ctx.tier == "quick" else 300
+    for i in range(nfiles):
+        k = rng.choice([1, 2, 7, 40, 90, 90])
+        rpus = [rng.choice(pool) for _ in range(k)]
+        chunk = rng.choice([8192, 8192, 16384, 100000])
+        mode = rng.choice(["plain", "exact-multiple", "exact-multiple"])
+        if mode == "exact-multiple":
+            # the read chunk size divides the file size exactly (the last read returns 0 bytes with an RPU carried over)
+            size = sum(4 + len(specgen.escape(b)) for b in rpus)
+            divs = [size // m for m in (1, 2, 3, 4) if size % m == 0 and size // m >= 8192]
+            if divs:
+                chunk = rng.choice(divs)
+            else:
+                mode = "plain"
+        jobs.append((i, rpus, chunk, mode))
+
+    def one(job):
+        i, rpus, chunk, mode = job
+        d = os.path.join(work, "f%d" % i)
+        os.makedirs(d, exist_ok=True)
+        inp = os.path.join(d, "in.bin")
+        clirun.write_rpu_file(inp, rpus)
+        cfg = os.path.join(d, "empty.json")
+        open(cfg, "w").write("{}")
+        outp = os.path.join(d, "out.bin")
+        rc, so, se = clirun.run(["editor", "-i", inp, "-j", cfg, "-o", outp], env={"DOVI_TOOL_VERIF_CHUNK_SIZE": str(chunk)})
+        same = rc == 0 and os.path.exists(outp) and open(outp, "rb").read() == open(inp, "rb").read()
+        nout = len(clirun.read_rpu_file(outp)) if rc == 0 and os.path.exists(outp) else None
+        return rc, same, nout, os.path.getsize(inp)
+    try:
+        with concurrent.futures.ThreadPoolExecutor(max_workers=12) as ex:
+            res = list(ex.map(one, jobs))
+        for (i, rpus, chunk, mode), (rc, same, nout, size) in zip(jobs, res):
+            ctx.evaluations += 1
+            ctx.count("cli-editor-empty/" + mode)
+            if rc == 0 and not same:
+                rp = os.path.join(common.VERIF, "replays", "C01-editor-empty-%d-%d.bin" % (ctx.seed, i))
+                clirun.write_rpu_file(rp, rpus)
+                ctx.oracle_fail({"op": "editor {}", "input": rp, "chunk_size": chunk, "file_size": size, "rpus_in": len(rpus),
+                                 "observed": "exit 0, %s RPUs out, bytes differ" % nout,
+                                 "expected": "byte-identical list or an error", "shape": "cli-identity"})
+            elif rc not in (0, 1):
+                ctx.oracle_fail({"op": "editor {}", "input": "list of %d RPUs" % len(rpus), "observed": "exit %s" % rc,
+                                 "expected": "exit 0 or an error message", "shape": "crash"})
+            elif rc == 0:
+                ctx.nontriv("cli%d" % i)
+    finally:
+        clirun.cleanup(work)
+
+
 def run(ctx):
     ctx.rule = ("structured RPUs from the independent syntax-table encoder (all profile classes, both coefficient types, "
                 "2..9 pivots, poly/MMR pieces, NLQ, use_prev, compressed DM, v2.9/v4.0 blocks of every level and length, "
@@ -52,6 +113,11 @@ def run(ctx):
     for name, p in rpucases.asset_rpus():
         cases.append(("asset", p, p))
     gen = rpucases.gen_structured(rng.fork("gen"), n)
+    specgen.BIG_SE = 0.02
+    try:
+        gen += rpucases.gen_structured(rng.fork("bigse"), n // 4)
+    finally:
+        specgen.BIG_SE = 0.0
     for b, j, tags in gen:
         for t in tags:
             ctx.count(t)
@@ -83,3 +149,9 @@ def run(ctx):
         ctx.count("outcome=" + r)
     for l in lines[:2] + lines[len(lines) // 2: len(lines) // 2 + 2]:
         ctx.sample(l[:400])
+    # files are built from RPUs the tool re-encodes unchanged (one failing entry fails the whole command)
+    good = []
+    for (op, inp, trimmed), o in zip(meta, io_):
+        if op == "rpu.write" and o == "ok " + hx(trimmed) and len(trimmed) >= 25:
+            good.append(trimmed)
+    cli_level(ctx, rng, good)
